@@ -22,6 +22,9 @@ CHECKS = {
     "C52": dict(level="proof", technique=PROOF_TECH, design="DESIGN.md §5 C52",
                 text="ScopedRegistry.__call__/has/set/clear are proved against the map view: the current scope's entry is returned or created exactly once, every other scope's entry and the key order are untouched.",
                 note="scopefunc pure within a call; thread interleavings rely on dict atomicity in CPython (assumed, stated); ThreadLocalRegistry and scoped_session wrappers not under proof"),
+    "C54": dict(level="proof", technique=PROOF_TECH, design="DESIGN.md §5 C54",
+                text="every OrderedSet method and operator, unique_list and IdentitySet (IdentitySet operand) is proved from the pure-Python source against 'set semantics with first-insertion order' (views via the spec functions addall/filt), representation invariants and frames included; the two known defects are reported as KNOWN-FINDING with every input outside their class proved. Bounded complement: pure and compiled builds against reference models.",
+                note="argument kinds are a case split (list with duplicates / set / IdentitySet); inductive lemmas filt_cong, addall_cat, filt_snoc assumed (Lean status in lemmas/); immutabledict/LRUCache/merge_lists_w_ordering are bounded only; the .so cannot be rebuilt here"),
     "C35": dict(level="proof", technique=PROOF_TECH, design="DESIGN.md §5 C35",
                 text="the five InstanceState lifecycle predicates are proved equal to their documented definitions over (key is None, _attached, _deleted) and the partition (exactly one holds) is a full-domain lemma over those postconditions; native replay on all 8 valuations.",
                 note="transitions and events are not under contract here; `_attached` is read as a boolean attribute"),
@@ -59,6 +62,16 @@ CHECKS.update({
              "bytecode analysis is CPython-3.12 specific", "DESIGN.md §5 C17"),
     "C51": B("inverse-pair contracts view(loads(dumps(x))) == view(x) with per-type abstraction functions for InstanceState (44 states x protocols 2-5, and __setstate__(__getstate__) without pickle), rows, frozen results, MetaData, loader options, ext.serializer statements. Bounded exploration.",
              "pickle itself; 'executes to the same results' is outside", "DESIGN.md §5 C51"),
+    "C02": B("the uncached compilation is the spec function: for every state of the compiled cache (disabled / cold / warm / sibling pairs / 3-permutations / LRU eviction) _compile_w_cache yields the SQL text, construct_params, positional tuples and bind types of a fresh compilation, and equal cache keys imply equal fresh SQL, over a depth-2 statement corpus plus mechanical near-collision variants (12k statements, 6 dialects). Bounded exploration.",
+             "result rows (backend) are outside; SQL text + parameters + types is the observation", "DESIGN.md §5 C02"),
+    "C03": B("frame condition on every @_generative method found by AST scan: snapshot(old(self)) == snapshot(self) (compiled SQL, params, cache key on 6 dialects) after every call in chains <= 2 (quick) / 3 (thorough), plus copy/_clone/pickle; compilation deterministic. Bounded exploration.",
+             "compile-string equality is the observation; execution outside", "DESIGN.md §5 C03"),
+    "C04": B("postconditions of SQLCompiler._process_positional/_process_numeric/bindparam_string/_init_compiled: literalising through qmark/format/numeric/numeric_dollar/pyformat/named equals the literal_binds ground truth and the named rendering; positiontup ghost relation; 15 shapes x slot pairs x 8 bind names x 3 dialect families. Bounded exploration.",
+             "regex engine and %-formatting are CPython's; drivers outside", "DESIGN.md §5 C04"),
+    "C16": B("postcondition of _render_schema_translates / _with_schema_translate: translated rendering equals the rendering of the construct built with the target schemas, for 17 worlds x map sequences over one cache x 24 statements + 13 DDL x 6 dialects. Bounded exploration.",
+             "execution on real schemas outside", "DESIGN.md §5 C16"),
+    "C22": B("exceptional postcondition of compile(): raises subset-of {CompileError, UnsupportedCompilationError, InvalidRequestError, ArgumentError}, over the statement corpus (depth 2) + ~3.3k compositions x 9 dialect variants x {plain, literal_binds, render_postcompile}. Bounded exploration of a finite catalogue.",
+             "'well-formed' = accepted by the constructors in the corpus generator", "DESIGN.md §5 C22"),
     "C20": B("inverse-pair contract make_url(u.render_as_string(hide_password=False)) == u on the real URL functions over ~3e5 URLs (all strings <= 3 of an adversarial alphabet per component, interacting pairs, hosts/ports table). Bounded exploration.",
              "urllib.parse quote/unquote and re are CPython's; canonical query forms only", "DESIGN.md §5 C20"),
     "C23": B("ghost nested-transaction model evaluated after every step of every operation sequence <= 5 (quick) / 6 (thorough) over 20 Connection/Transaction operations on file-backed SQLite with an independent observer connection. Bounded exploration.",
